@@ -28,6 +28,7 @@ def run(rep, tier):
     common.guarded(rep, "C04.7", c04_7, rep, ix)
     if sites:
         common.guarded(rep, "C04.4", c04_4, rep, ix, sites)
+        common.guarded(rep, "C04.8", c04_8, rep, ix, sites)
     common.guarded(rep, "C04.5", c04_5, rep, ix, M.G)
     from . import c05, c08
     common.guarded(rep, "C04.6", c05.c05_5, rep, ix, "C04.6")
@@ -107,8 +108,15 @@ def lookup_sites(fn):
     out = []
     for n in walk_shallow(fn):
         pass
+    # keys that come from iterating the mapping itself cannot be missing
+    own_keys = set()
     for n in ast.walk(fn):
-        if isinstance(n, ast.Subscript) and isinstance(n.ctx, ast.Load) and u(n.value) == "kwargs" and "str(" in u(n.slice):
+        if isinstance(n, (ast.For, ast.comprehension)) and " ".join(u(n.iter).split()) in ("kwargs", "kwargs.items()", "kwargs.keys()", "list(kwargs)", "list(kwargs.items())", "sorted(kwargs)"):
+            t = n.target.elts[0] if isinstance(n.target, ast.Tuple) and "items" in u(n.iter) else n.target
+            if isinstance(t, ast.Name):
+                own_keys.add(t.id)
+    for n in ast.walk(fn):
+        if isinstance(n, ast.Subscript) and isinstance(n.ctx, ast.Load) and u(n.value) == "kwargs" and not (isinstance(n.slice, ast.Name) and n.slice.id in own_keys):
             out.append(n)
     return out
 
@@ -241,6 +249,10 @@ def c04_4(rep, ix, sites):
             s2 = _copy.deepcopy(s)
             if isinstance(s2, ast.Assign) and isinstance(s2.value, ast.Call) and any(k.arg is None for k in s2.value.keywords) and not isinstance(s2.targets[0], ast.Name):
                 s2.targets = [ast.Name(id="TARGET", ctx=ast.Store())]
+            # the substituted value collected into a list that is stored afterwards: `acc.append(func(**vals))`
+            if isinstance(s2, ast.Expr) and isinstance(s2.value, ast.Call) and isinstance(s2.value.func, ast.Attribute) and s2.value.func.attr == "append" and len(s2.value.args) == 1 \
+                    and isinstance(s2.value.args[0], ast.Call) and any(k.arg is None for k in s2.value.args[0].keywords):
+                s2 = ast.copy_location(ast.Assign(targets=[ast.Name(id="TARGET", ctx=ast.Store())], value=s2.value.args[0]), s2)
             prep.append(Subst(subj).visit(s2))
         # the names bound inside the idiom are compared up to renaming
         bound = set()
@@ -270,6 +282,8 @@ def c04_4(rep, ix, sites):
             if tr in b:
                 blk = b
         st = blk[blk.index(tr) + 1] if blk and blk.index(tr) + 1 < len(blk) else None
+        if isinstance(st, ast.Expr) and isinstance(st.value, ast.Call) and isinstance(st.value.func, ast.Attribute) and st.value.func.attr == "append" and isinstance(st.value.func.value, ast.Name):
+            st = ast.copy_location(ast.Assign(targets=[ast.Subscript(value=st.value.func.value, slice=ast.Constant(value=-1), ctx=ast.Store())], value=st.value.args[0]), st)
         if not isinstance(st, ast.Assign):
             continue
         r = root_name(st.targets[0])
@@ -286,11 +300,20 @@ def c04_4(rep, ix, sites):
             x_ = x_.value
         if not ok and r is not None:
             # an alias: a loop variable over, or an attribute chain of, the returned program - but not the result of a getter that returns a copy
-            binders = [n for n in ast.walk(fn) if (isinstance(n, ast.For) and any(isinstance(x, ast.Name) and x.id == r for x in ast.walk(n.target)) and root_name(n.iter if not isinstance(n.iter, ast.Call) else n.iter.func) == prog)
-                       or (isinstance(n, ast.Assign) and any(isinstance(t, ast.Name) and t.id == r for t in n.targets) and root_name(n.value) == prog)]
+            # (aliases of aliases included: `for op in prog._operations: op_args = op['args']`)
+            roots = {prog}
+            for _ in range(4):
+                for n in ast.walk(fn):
+                    if isinstance(n, ast.For) and root_name(n.iter if not isinstance(n.iter, ast.Call) else n.iter.func) in roots:
+                        roots |= {x.id for x in ast.walk(n.target) if isinstance(x, ast.Name)}
+                    elif isinstance(n, ast.Assign) and len(n.targets) == 1 and isinstance(n.targets[0], ast.Name) and isinstance(n.value, (ast.Attribute, ast.Subscript, ast.Name)) \
+                            and root_name(n.value) in roots:
+                        roots.add(n.targets[0].id)
+            binders = [n for n in ast.walk(fn) if (isinstance(n, ast.For) and any(isinstance(x, ast.Name) and x.id == r for x in ast.walk(n.target)) and root_name(n.iter if not isinstance(n.iter, ast.Call) else n.iter.func) in roots)
+                       or (isinstance(n, ast.Assign) and any(isinstance(t, ast.Name) and t.id == r for t in n.targets) and root_name(n.value) in roots)]
             ok = bool(binders)
             # ... or a local object that is itself stored into the returned program afterwards
-            stored = [n for n in ast.walk(fn) if isinstance(n, ast.Assign) and isinstance(n.value, ast.Name) and n.value.id == r and root_name(n.targets[0]) == prog and not isinstance(n.targets[0], ast.Name)]
+            stored = [n for n in ast.walk(fn) if isinstance(n, ast.Assign) and isinstance(n.value, ast.Name) and n.value.id == r and root_name(n.targets[0]) in roots and not isinstance(n.targets[0], ast.Name)]
             if stored:
                 ok = True
             for n in binders:
@@ -306,6 +329,70 @@ def c04_4(rep, ix, sites):
     rep.check(len(shapes) >= 4, R, ix.site(f), "four kinds of site are substituted: positional argument, keyword argument, scalar variable, array element", "found %s" % subjects, key="four sites")
     # each site is reached for SymPy values only and writes back into the copy at the place it read from
     return shapes
+
+
+def c04_8(rep, ix, sites):
+    """which operations get their arguments substituted is decided by finite models of an operation, not by the spelling of the loops"""
+    R = "C04.8"
+    rep.rule(R, "the substitution of a positional (keyword) argument is reached for every operation that holds a symbolic value in that position, whatever its other "
+                "arguments are: decided on finite models of an operation (no / numeric / symbolic positional arguments x no / numeric / symbolic keyword arguments)", floor=2)
+    from ..py.guards import Reach, KINDS, SYM_KINDS, AEval, stmt_of
+    f = ix.func(CALL)
+    fn = f.node
+    num, symv = KINDS["PyFloat"], SYM_KINDS["Symbol"].with_attrs(symbol="a", name="a")
+    arg_models = {"none": (), "numeric": (num,), "symbolic": (symv,), "numeric+symbolic": (num, symv)}
+    kw_models = {"none": {}, "numeric": {"k": num}, "symbolic": {"k": symv}}
+    found = set()
+    for n, tr in sites:
+        if tr is None:
+            continue
+        # the loops around the site: over the operation's positional or keyword arguments?
+        path = []
+        for l in ast.walk(fn):
+            if isinstance(l, ast.For) and any(x is tr for x in ast.walk(l)):
+                path.append(l)
+        oploop = [l for l in path if isinstance(l.target, ast.Name) and ("_operations" in u(l.iter) or "operations" in u(l.iter))]
+        if not oploop:
+            continue
+        opname = oploop[0].target.id
+        inner = [l for l in path if l is not oploop[0]]
+        if len(inner) != 1:
+            continue
+        from ..py.guards import resolved_text
+        it = resolved_text(fn, inner[0].iter, inner[0])
+        slot = "positional" if "['args']" in it or '["args"]' in it else ("keyword" if "['kwargs']" in it or '["kwargs"]' in it else None)
+        if slot is None:
+            continue
+        found.add(slot)
+        names = [x.id for x in ast.walk(inner[0].target) if isinstance(x, ast.Name)]
+        bad = []
+        for an, am in arg_models.items():
+            for kn, km in kw_models.items():
+                holds = ("symbolic" in an) if slot == "positional" else ("symbolic" in kn)
+                if not holds:
+                    continue
+                op = {"op": "G", "modes": (0,), "args": am, "kwargs": km}
+
+                def atom(node, op=op, names=names, slot=slot):
+                    if isinstance(node, ast.Name) and node.id == opname:
+                        return op
+                    if isinstance(node, ast.Name) and node.id in names:
+                        # the loop is at the symbolic element: value variable -> the symbol, index / key variable -> its position / key
+                        if slot == "positional":
+                            return symv if node.id == names[-1] else len(op["args"]) - 1
+                        return symv if node.id == names[-1] else "k"
+                    return AEval.NO
+                r_ = Reach(fn, tr)
+                try:
+                    ok = r_.may_reach(atom)
+                except Inconclusive:
+                    ok = True
+                if not ok:
+                    bad.append("%s positional / %s keyword arguments" % (an, kn))
+        rep.check(not bad, R, ix.site(f, tr), "the %s-argument substitution is reached whenever the operation holds a symbolic %s argument" % (slot, slot),
+                  "not reached for an operation with %s" % "; ".join(bad), key="reach|" + slot)
+    if found != {"positional", "keyword"}:
+        raise Inconclusive("__call__: positional / keyword substitution loops not recognised (%s)" % sorted(found))
 
 
 class Subst(ast.NodeTransformer):
